@@ -50,9 +50,14 @@ VetoOK(c) ==
      /\ (c.veto[1] \in {"G", "H"} => c.veto[2] \notin HdrStages /\ c.route = "reg")
 
 \* vkind: the selected hook returns a non-OK status ("veto") or panics ("panic", server-side plugins only)
+\* wret = "late": the caller's connection returns from Write only after the bytes have long been delivered (a
+\* writer descheduled after the system call), so the whole exchange -- handler, reply, reply handling -- is over
+\* before the calling goroutine is back from its write.  The outcome the caller sees must be the same.
+AllProf == [L |-> "all", G |-> "all", H |-> "all", R |-> "all"]
 Cfgs == {c \in [kind : Kinds, route : Routes, prof : ProfSets, veto : Vetoes, vkind : {"veto", "panic"},
-                hout : Houts, dec : {"ok", "bad"}, rdec : {"ok", "bad"}] :
+                hout : Houts, dec : {"ok", "bad"}, rdec : {"ok", "bad"}, wret : {"atonce", "late"}] :
            /\ VetoOK(c)
+           /\ (c.wret = "late" => c.veto = NoVeto /\ c.kind = "call" /\ c.dec = "ok" /\ c.prof = AllProf /\ c.vkind = "veto")
            /\ (c.vkind = "panic" => c.veto # NoVeto /\ c.veto[1] # "CL" /\ c.veto[2] # "PreReadHeader")
            /\ (c.hout = "unpackable" => c.kind = "call" /\ c.route = "reg")
            /\ (c.kind = "push" => c.rdec = "ok")
